@@ -523,7 +523,7 @@ func descIn(x an.FV) string {
 			if i >= len(args) {
 				break
 			}
-			d = replaceToken(d, "$"+p.Name(), an.D().Of(args[i]))
+			d = replaceToken(d, an.ParamDesc(p), an.D().Of(args[i]))
 		}
 	}
 	return d
